@@ -55,11 +55,14 @@ class XCheck:
         if verdict not in ("sat", "unsat") or not self.want():
             return
         try:
-            solver.push()
+            # a copy: push/pop on the live solver would discard the model the caller still wants to read
+            import z3
+
+            s2 = z3.Solver()
+            s2.add(solver.assertions())
             for e in extra:
-                solver.add(e)
-            txt = solver.to_smt2()
-            solver.pop()
+                s2.add(e)
+            txt = s2.to_smt2()
         except Exception:
             return
         self.run_text(txt, verdict, label)
